@@ -79,6 +79,9 @@ def _grid_structured():
       gen.with_wavenumbers_cfg(10, 'quadratic', impl='fast', bsm=8),
       gen.with_wavenumbers_cfg(7, 'cubic', spacing='equiangular', impl='fast', stk=True),
       gen.factory_cfg('T21', 'fast'), gen.factory_cfg('T21', 'fast', offset=0.1, radius=2.0),
+      # longitude node counts at / around the Nyquist limit of the top zonal wavenumber:
+      # nlon = 2(M-1) (the top wavenumber IS the Nyquist frequency), 2(M-1)+1, 2M, and nlon = M
+      g(9, 10, 16, 10), g(6, 7, 10, 7, bsm=4), g(9, 10, 17, 10), g(8, 9, 16, 12, stk=True), g(7, 8, 7, 8),
   ]
 
 
